@@ -33,14 +33,19 @@ def choice(src, n=3, mode='optimal', lean=False):
 
 
 @rigged
-def distribution(src, n=2, procs=2, lean=True, dist=('SINGLE_INSTANCE', 'SINGLE_NODE')):
+def distribution(src, n=2, procs=2, lean=True, dist=('SINGLE_INSTANCE', 'SINGLE_NODE'), late=False):
     """H14b: real ApplicationStartJobs.before / distribute_to_single_instance / distribute_to_single_node"""
     from harness.c04 import start_apps
-    core, targets, reqs = start_apps.__wrapped__(src, n=n, procs=procs, apps=1, lean=lean, dist=dist)
+    core, targets, reqs = start_apps.__wrapped__(src, n=n, procs=procs, apps=1, lean=lean, dist=dist, late=late)
+    late_ns = getattr(core, 'late_namespec', None)
+    late_reqs = [r for r in reqs if r[1] == late_ns] + [(i, late_ns) for i in getattr(core, 'late_targets', [])]
+    reqs = [r for r in reqs if r[1] != late_ns]
     application, dist_rule, plist = targets[0]
     ids = core.ids
     used = sorted({ids.index(i) for i, _ in reqs})
     strat = application.rules.starting_strategy.name
+    if reqs and late_reqs:
+        _late(src, core, targets, reqs, late_reqs, strat)
     if reqs:
         src.reach('distributed')
         sit = plist[0][1]
@@ -78,6 +83,26 @@ def distribution(src, n=2, procs=2, lean=True, dist=('SINGLE_INSTANCE', 'SINGLE_
                     pend[i] = pend[i] + s['L']
 
 
+def _late(src, core, targets, reqs, late_reqs, strat):
+    """the command added to the job in progress goes where the application goes (its own rule is replaced)"""
+    application, dist_rule, plist = targets[0]
+    ids = core.ids
+    sit = plist[0][1]
+    used = sorted({ids.index(i) for i, _ in reqs})
+    for identifier, namespec in late_reqs:
+        src.reach('command-added-to-a-job-in-progress')
+        i = ids.index(identifier)
+        if dist_rule == 'SINGLE_INSTANCE':
+            src.check('added-command-follows-the-application', used == [i], sig=dist_rule, target=i, used=used)
+        else:
+            node = {sit['node'][j] for j in used}
+            src.check('added-command-follows-the-application', {sit['node'][i]} == node and i in sit['permitted'],
+                      sig=dist_rule, target=i, used=used)
+            if strat == 'CONFIG':
+                first = [j for j in sit['permitted'] if sit['node'][j] in node and sit['running'][j]]
+                src.check('added-command-config-order', first and i == first[0], sig=dist_rule, target=i, first=first)
+
+
 def _all(flags):
     out = True
     for f in flags:
@@ -96,6 +121,11 @@ HARNESSES = [
             reach=('distributed',), timeout=(100, 1200),
             doc='SINGLE_INSTANCE / SINGLE_NODE applications through the real Starter: one instance able to carry the '
                 'whole sequence / instances of one node; the application identifiers rule applies'),
+    Harness('H14b-late', distribution, quick={'n': 2, 'procs': 1, 'lean': True, 'late': True},
+            thorough={'n': 3, 'procs': 1, 'lean': True, 'late': True},
+            reach=('distributed', 'command-added-to-a-job-in-progress'), timeout=(60, 600),
+            doc='a start request for a program outside the sequence, with its own rule, while the start of its '
+                'non-distributed application is in progress (on_command_added)'),
     Harness('H14b-config', distribution, quick={'n': 2, 'procs': 2, 'lean': False, 'dist': ('SINGLE_NODE',)},
             thorough={'n': 3, 'procs': 2, 'lean': False, 'dist': ('SINGLE_NODE',)},
             reach=('distributed',), timeout=(100, 1200),
